@@ -19,3 +19,11 @@ typedef LAFEM::VectorMirror<double, Index> Mirror;
 
 template class FEAT::LAFEM::Transfer<ScalarMatrix>;
 template class FEAT::Global::Transfer<LAFEM::Transfer<ScalarMatrix>, Mirror>;
+
+// the forwarding constructor Global::Transfer(const MuxerType*, Args&&...) is a member template: instantiated by a never-called function
+typedef FEAT::Global::Transfer<LAFEM::Transfer<ScalarMatrix>, Mirror> GlobTransfer;
+inline void c09_inst_ctor(const GlobTransfer::MuxerType* muxer, LAFEM::Transfer<ScalarMatrix>&& loc)
+{
+  GlobTransfer t(muxer, std::move(loc));
+  (void)t;
+}
